@@ -1,4 +1,5 @@
 import UtilModel.Lemmas.UUText
+import UtilModel.Lemmas.CodeTies
 /-!
 # C05 — UUID text form is exact, strict and round-trips
 
@@ -255,5 +256,10 @@ example : parse 45 false false (exText.set 8 48) = .err .invalid := by decide   
 example : parse 45 false false (exText.set 9 103) = .err (.invalidDigit 103) := by decide   -- `g`
 example : ex.version = 1 ∧ ex.variant = 1 := by decide
 example : normalise ([85,82,78,58,117,117,105,100,58] ++ exUpper) = exText := by decide
+
+/-- **tie to the source**: `parseDigit` as translated from `uu/parse.go` on this run is the model's digit decoder -/
+theorem parseDigit_code_tie (c : Nat) (au : Bool) :
+    UU.parseDigit c au = (if (Gen.uu_parseDigit c au).2 then some (Gen.uu_parseDigit c au).1 else none) :=
+  CodeTies.parseDigit_tie c au
 
 end U.Props.C05
